@@ -25,6 +25,8 @@ type c15Case struct {
 	AsVar  bool   `json:"as_var"` // ASCII variable instead of a literal
 	InList bool   `json:"in_list"`
 	BadAt  int    `json:"bad_at,omitempty"` // 1-based: that element of the literal is one its type cannot hold (0 = none)
+	// SameLine, when set, is a message name written before the item ON THE SAME LINE (positions are counted in characters)
+	SameLine string `json:"same_line,omitempty"`
 }
 
 // badElement is a well-formed number that the item type cannot represent: it is written, so it is counted.
@@ -157,6 +159,10 @@ func checkC15(c c15Case) (ci caseInfo, err error) {
 	text := "S1F1 W\n" + item + "\n."
 	if c.InList {
 		text = "S1F1 W\n<L\n  <U1 7>\n  " + item + "\n>\n."
+	}
+	if c.SameLine != "" && readsAsOneName(c.SameLine) {
+		text = "S1F1 W H->E " + c.SameLine + " " + strings.TrimPrefix(text, "S1F1 W\n")
+		ci.label("item-on-the-header-line")
 	}
 	off := strings.Index(text, decl)
 	line, col := lineCol(text, off)
@@ -456,6 +462,9 @@ func TestC15(t *testing.T) {
 		}
 		if c.AsVar {
 			c.Kind = model.A
+		}
+		if rapid.IntRange(0, 4).Draw(t, "sameLine") == 4 {
+			c.SameLine = rapid.SampledFrom([]string{"name", "Größe", "a✉b", "名前", "x", "😀", "ıſ", "n\u00e9"}).Draw(t, "sameLineName")
 		}
 		if c.Count > 0 && rapid.IntRange(0, 5).Draw(t, "badElem") == 5 {
 			c.BadAt = rapid.IntRange(1, c.Count).Draw(t, "badAt")
